@@ -24,8 +24,11 @@ type ValDesc struct {
 	Bool  bool       `json:"bool,omitempty"`
 	Ref   int64      `json:"ref,omitempty"`
 	Stack *StackDesc `json:"stack,omitempty"`
+	Cond  *CondDesc  `json:"cond,omitempty"`
 	Elems []ValDesc  `json:"elems,omitempty"`
 	Raw   string     `json:"raw,omitempty"`
+	OpStr string     `json:"op_str,omitempty"`
+	OpCtx string     `json:"op_ctx,omitempty"`
 }
 
 type StackDesc struct {
@@ -41,7 +44,17 @@ type StackDesc struct {
 	Elems  []ValDesc `json:"elems"`
 }
 
+type CondDesc struct {
+	Ref   int64   `json:"ref"`
+	Kw    string  `json:"kw"`
+	Op    ValDesc `json:"op"`
+	Ex    ValDesc `json:"ex"`
+	Opt   int64   `json:"opt"`
+	ErrSet bool   `json:"err_set"`
+}
+
 type ArgDesc struct {
+	Cond  *CondDesc  `json:"cond,omitempty"`
 	Name  string     `json:"name"`
 	GoTyp string     `json:"go_type"`
 	Val   *ValDesc   `json:"val,omitempty"`
@@ -56,6 +69,7 @@ type Witness struct {
 	Args   []ArgDesc `json:"args"`
 	GoTest string    `json:"go_test"`
 	Pins   []string  `json:"-"`
+	OpVals []string  `json:"op_values,omitempty"` // SMT values of the user-defined operators built by the test
 	Note   string    `json:"note,omitempty"`
 }
 
@@ -311,6 +325,9 @@ func (m *modelSession) stackDesc(hdr string, ref int64, depth int) (*StackDesc, 
 		n, _ := smtInt(m.vals[w])
 		d.Ppf = n != 0
 	}
+	if !m.noClosures(cfg) {
+		return nil, false
+	}
 	for k := int64(1); k < d.HdrLen && k <= maxElems; k++ {
 		v, ok := m.valDesc(app("sslot", mem, hdr, fmt.Sprint(k)), depth)
 		if !ok {
@@ -324,6 +341,114 @@ func (m *modelSession) stackDesc(hdr string, ref int64, depth int) (*StackDesc, 
 		return nil, false
 	}
 	return d, true
+}
+
+func (m *modelSession) condDesc(ref int64, depth int) (*CondDesc, bool) {
+	d := &CondDesc{Ref: ref}
+	r := fmt.Sprint(ref)
+	get := func(comp string) string {
+		if c := m.entry(comp); c != "" {
+			return app("select", c, r)
+		}
+		return ""
+	}
+	if t := get("F_condition_kw"); t != "" {
+		m.prefer(fmt.Sprintf("(<= (str.len %s) 3)", t))
+		if !m.ask([]string{t}) {
+			return nil, false
+		}
+		s, ok := smtStr(m.vals[t])
+		if !ok {
+			return nil, false
+		}
+		d.Kw = s
+	}
+	d.Op = ValDesc{Kind: "nil"}
+	d.Ex = ValDesc{Kind: "nil"}
+	if t := get("F_condition_op"); t != "" {
+		v, ok := m.opDesc(t)
+		if !ok {
+			return nil, false
+		}
+		d.Op = v
+	}
+	if t := get("F_condition_ex"); t != "" {
+		v, ok := m.valDesc(t, depth)
+		if !ok {
+			return nil, false
+		}
+		d.Ex = v
+	}
+	if cfgc := m.entry("F_condition_cfg"); cfgc != "" {
+		g := app("select", cfgc, r)
+		if oc := m.entry("F_nodeConfig_opt"); oc != "" {
+			t := app("select", oc, g)
+			if !m.ask([]string{t}) {
+				return nil, false
+			}
+			d.Opt, _ = smtBV(m.vals[t])
+		}
+		if ec := m.entry("F_nodeConfig_err"); ec != "" {
+			t := app("select", ec, g)
+			if !m.ask([]string{t}) {
+				return nil, false
+			}
+			d.ErrSet = m.vals[t] != "nilv"
+		}
+		if !m.noClosures(g) {
+			return nil, false
+		}
+	}
+	return d, true
+}
+
+// noClosures pins every closure field of configuration record g to nil (the replay builds none).
+func (m *modelSession) noClosures(g string) bool {
+	for _, f := range []string{"vpf", "rpf", "eqf", "umf", "maf", "evl", "lss", "mfn"} {
+		c := m.entry("F_nodeConfig_" + f)
+		if c == "" {
+			continue
+		}
+		t := app("select", c, g)
+		m.prefer(app("=", t, "0"))
+		if !m.ask([]string{t}) {
+			return false
+		}
+		if n, _ := smtInt(m.vals[t]); n != 0 {
+			return false
+		}
+	}
+	return true
+}
+
+// opDesc describes an Operator value (built-in comparison operator or a user-defined one given by its two texts).
+func (m *modelSession) opDesc(term string) (ValDesc, bool) {
+	m.prefer(fmt.Sprintf("(or (= %s nilv) ((_ is v_cop) %s))", term, term))
+	if !m.ask([]string{term}) {
+		return ValDesc{}, false
+	}
+	v := parseVal(m.vals[term])
+	if os.Getenv("GVC_DEBUG") != "" {
+		fmt.Println("opDesc:", term, "=", m.vals[term], "kind", v.Kind)
+	}
+	switch v.Kind {
+	case "nil", "cop":
+		return v, true
+	case "other":
+		st, ct := app("ext_Operator_String_0", term), app("ext_Operator_Context_0", term)
+		m.prefer(fmt.Sprintf("(and (<= (str.len %s) 2) (<= (str.len %s) 2))", st, ct))
+		if !m.ask([]string{st, ct}) {
+			return v, false
+		}
+		s1, ok1 := smtStr(m.vals[st])
+		s2, ok2 := smtStr(m.vals[ct])
+		if !ok1 || !ok2 {
+			return v, false
+		}
+		v.Kind, v.OpStr, v.OpCtx = "op", s1, s2
+		return v, true
+	}
+	return v, false
 }
 
 func (m *modelSession) valDesc(term string, depth int) (ValDesc, bool) {
@@ -368,7 +493,20 @@ func (m *modelSession) valDesc(term string, depth int) (ValDesc, bool) {
 			v.Ref = ref
 			v.Stack = sd
 		}
-	case "cond", "anys", "unknown":
+	case "cond":
+		if v.Ref == 0 {
+			return v, true
+		}
+		if depth <= 0 {
+			return v, false
+		}
+		cd, ok := m.condDesc(v.Ref, depth-1)
+		if !ok {
+			return v, false
+		}
+		v.Cond = cd
+	case "str":
+	case "anys", "unknown":
 		return v, false
 	}
 	return v, true
@@ -415,6 +553,29 @@ func (e *Engine) concretise(res *FuncResult, g *Goal, o runOpts) (*Witness, bool
 				}
 				a.Stack = sd
 			}
+		case tk == "Condition":
+			if !m.ask([]string{term}) {
+				dbg()
+				return nil, false
+			}
+			ref, _ := smtInt(m.vals[term])
+			if ref == 0 {
+				a.Nil = true
+			} else {
+				cd, ok := m.condDesc(ref, 1)
+				if !ok {
+					dbg()
+					return nil, false
+				}
+				a.Cond = cd
+			}
+		case tk == "Operator":
+			vd, ok := m.opDesc(term)
+			if !ok {
+				dbg()
+				return nil, false
+			}
+			a.Val = &vd
 		case tk == "stack":
 			sd, ok := m.stackDesc(term, -1, 1)
 			if !ok {
@@ -574,6 +735,7 @@ func isBasicInt(t types.Type) bool {
 // Go test generation
 
 type gen struct {
+	opVals []string
 	b     strings.Builder
 	n     int
 	stack map[int64]string // model ref -> Go variable
@@ -601,8 +763,33 @@ func (g *gen) mkStack(d *StackDesc) string {
 	return v
 }
 
+func (g *gen) mkCond(d *CondDesc) string {
+	v := g.tmp("c")
+	fmt.Fprintf(&g.b, "\t%s := gvcMkCond(%s, %s, %s, %d, %v)\n", v, strconv.Quote(d.Kw), g.mkOp(d.Op), g.mkVal(d.Ex), d.Opt, d.ErrSet)
+	fmt.Fprintf(&g.b, "\tgvcCondReg[%s] = %d\n", v, d.Ref)
+	return v
+}
+
+func (g *gen) mkOp(v ValDesc) string {
+	switch v.Kind {
+	case "cop":
+		return fmt.Sprintf("Operator(ComparisonOperator(%d))", v.Int)
+	case "op":
+		g.opVals = append(g.opVals, v.Raw)
+		return fmt.Sprintf("Operator(gvcOp{%s, %s, %d})", strconv.Quote(v.OpStr), strconv.Quote(v.OpCtx), len(g.opVals)-1)
+	}
+	return "Operator(nil)"
+}
+
 func (g *gen) mkVal(v ValDesc) string {
 	switch v.Kind {
+	case "op":
+		return g.mkOp(v)
+	case "cond":
+		if v.Cond == nil {
+			return "Condition{}"
+		}
+		return "Condition{" + g.mkCond(v.Cond) + "}"
 	case "nil":
 		return "nil"
 	case "int":
@@ -634,7 +821,7 @@ func genReplayTest(res *FuncResult, w *Witness) (string, bool) {
 	sig := fn.Signature
 	var callArgs []string
 	recvExpr := ""
-	var recvVar string
+	var recvVar, recvCond string
 	for i, a := range w.Args {
 		isRecv := sig.Recv() != nil && i == 0
 		var expr string
@@ -652,8 +839,16 @@ func genReplayTest(res *FuncResult, w *Witness) (string, bool) {
 			if isRecv {
 				recvVar = sv
 			}
+		case a.Cond != nil:
+			cv := g.mkCond(a.Cond)
+			expr = "Condition{" + cv + "}"
+			if isRecv {
+				recvCond = cv
+			}
 		case a.Nil:
 			switch a.GoTyp {
+			case "Condition":
+				expr = "Condition{}"
 			case "Stack":
 				expr = "Stack{}"
 			default:
@@ -713,7 +908,11 @@ func genReplayTest(res *FuncResult, w *Witness) (string, bool) {
 	if recvVar != "" {
 		fmt.Fprintf(&b, "\tgvcDump(\"recv\", %s)\n", recvVar)
 	}
+	if recvCond != "" {
+		fmt.Fprintf(&b, "\tgvcDumpCond(%s)\n", recvCond)
+	}
 	b.WriteString("\tfmt.Println(\"GVC-DONE\")\n}\n")
+	w.OpVals = g.opVals
 	return b.String(), true
 }
 
@@ -730,6 +929,33 @@ type gvcAlias Stack
 type gvcOther struct{ id int }
 
 var gvcReg = map[*stack]int{}
+var gvcCondReg = map[*condition]int{}
+
+type gvcOp struct {
+	s, c string
+	id   int
+}
+
+func (o gvcOp) String() string  { return o.s }
+func (o gvcOp) Context() string { return o.c }
+
+func gvcMkCond(kw string, op Operator, ex any, opt int, errSet bool) *condition {
+	c := initCondition()
+	c.kw, c.op, c.ex = kw, op, ex
+	c.cfg.opt = cfgFlag(opt)
+	if errSet {
+		c.cfg.err = errorf("gvc")
+	}
+	return c
+}
+
+func gvcDumpCond(c *condition) {
+	fmt.Printf("GVC-CPOST kw %s\n", strconv.Quote(c.kw))
+	fmt.Printf("GVC-CPOST op %s\n", gvcEnc(c.op))
+	fmt.Printf("GVC-CPOST ex %s\n", gvcEnc(c.ex))
+	fmt.Printf("GVC-CPOST opt %d\n", int(c.cfg.opt))
+	fmt.Printf("GVC-CPOST err %v\n", c.cfg.err != nil)
+}
 
 func gvcCfg(s *stack) *nodeConfig { c, _ := (*s)[0].(*nodeConfig); return c }
 
@@ -772,6 +998,18 @@ func gvcEnc(x any) string {
 		return "stack:?"
 	case *nodeConfig:
 		return "cfg"
+	case ComparisonOperator:
+		return "cop:" + strconv.Itoa(int(v))
+	case gvcOp:
+		return "gop:" + strconv.Itoa(v.id)
+	case Condition:
+		if v.condition == nil {
+			return "cond:0"
+		}
+		if id, ok := gvcCondReg[v.condition]; ok {
+			return "cond:" + strconv.Itoa(id)
+		}
+		return "cond:?"
 	case error:
 		return "err"
 	}
@@ -844,6 +1082,7 @@ func (e *Engine) runWitness(w *Witness, g *Goal) (string, bool) {
 
 // confirmPost re-checks a failed functional obligation with inputs and observed outputs pinned.
 func (e *Engine) confirmPost(res *FuncResult, g *Goal, w *Witness, out string, o runOpts) (bool, string) {
+	curOpVals = w.OpVals
 	pins := append([]string{}, w.Pins...)
 	x := res.X
 	// results
@@ -905,6 +1144,50 @@ func (e *Engine) confirmPost(res *FuncResult, g *Goal, w *Witness, out string, o
 			}
 		}
 	}
+	if len(res.Args) > 0 && res.Fn.Signature.Recv() != nil && typeKey(res.Fn.Params[0].Type()) == "Condition" {
+		if sv, ok := x.specVarOf(res.Args[0], "confirm"); ok {
+			exitc := func(name string) string {
+				if t, ok := res.Exit[name]; ok {
+					return t.S
+				}
+				if t, ok := res.X.Entry[name]; ok {
+					return t.S
+				}
+				return ""
+			}
+			for _, l := range strings.Split(out, "\n") {
+				l = strings.TrimSpace(l)
+				if !strings.HasPrefix(l, "GVC-CPOST ") {
+					continue
+				}
+				f := strings.SplitN(strings.TrimPrefix(l, "GVC-CPOST "), " ", 2)
+				switch f[0] {
+				case "kw":
+					if c := exitc("F_condition_kw"); c != "" {
+						s, _ := strconv.Unquote(f[1])
+						pins = append(pins, app("=", app("select", c, sv.T.S), StrLit(s).S))
+					}
+				case "op", "ex":
+					if c := exitc("F_condition_" + f[0]); c != "" {
+						t, ok := encObserved(f[1], SVal)
+						if !ok {
+							return false, "condition field not encodable: " + f[1]
+						}
+						if t != "" {
+							pins = append(pins, app("=", app("select", c, sv.T.S), t))
+						} else if f[1] != "nil" {
+							pins = append(pins, app("not", app("=", app("select", c, sv.T.S), "nilv")))
+						}
+					}
+				case "opt":
+					if c, g2 := exitc("F_nodeConfig_opt"), exitc("F_condition_cfg"); c != "" && g2 != "" {
+						n, _ := strconv.Atoi(f[1])
+						pins = append(pins, app("=", app("select", c, app("select", g2, sv.T.S)), fmt.Sprintf("#x%04x", n)))
+					}
+				}
+			}
+		}
+	}
 	q := res.Ctx.QueryExtra(g, pins, nil)
 	r, _ := race(q, o.Workdir, g.Name+"_confirm", o.Timeout, false)
 	if r.Status != "sat" {
@@ -921,8 +1204,16 @@ func (e *Engine) confirmPost(res *FuncResult, g *Goal, w *Witness, out string, o
 	return false, "pinned re-check: the observed execution does not decide the clause (" + r2.Status + ")"
 }
 
+var curOpVals []string
+
 func encObserved(enc string, sort string) (string, bool) {
 	switch {
+	case strings.HasPrefix(enc, "gop:"):
+		k, _ := strconv.Atoi(enc[4:])
+		if k < len(curOpVals) && curOpVals[k] != "" {
+			return curOpVals[k], true
+		}
+		return "", false
 	case enc == "nil":
 		if sort == SVal {
 			return "nilv", true
@@ -953,6 +1244,16 @@ func encObserved(enc string, sort string) (string, bool) {
 			return app("v_Stack", enc[6:]), true
 		}
 		return enc[6:], true
+	case strings.HasPrefix(enc, "cop:"):
+		n, _ := strconv.Atoi(enc[4:])
+		return fmt.Sprintf("(v_cop #x%02x)", n), true
+	case strings.HasPrefix(enc, "cond:") && enc != "cond:?":
+		if sort == SVal {
+			return app("v_Cond", enc[5:]), true
+		}
+		return enc[5:], true
+	case enc == "gop":
+		return "", true
 	case enc == "err":
 		return "", true // non-nil error: identity not pinned
 	}
